@@ -36,6 +36,7 @@ def run(ctx):
         fixed = [dict(transfer_model="EH", lnk_min=-12.0, lnk_max=10.0, dlnk=0.2, Mmin=10.0, Mmax=15.0, dlog10m=0.5, z=z, hmf_model=f, mdef_model=md, cosmo_params=cp)
                  for f, md, cp, z in [("Watson", None, {"Om0": 0.25}, 1.0), ("Tinker08", "SOCritical", {"Om0": 0.25}, 0.0),
                                       ("Tinker10", "SOVirial", {"Om0": 0.4, "H0": 62.0}, 0.5)]]   # fits that read the cosmology, with cosmo_params set
+        fixed += [dict(fixed[0], hmf_model=f_, hmf_params=hp_, mdef_model=None, z=0.5) for f_, hp_ in (("SMT", {"A": None, "p": 0.2}), ("Courtin", {"A": None}), ("ST", {"A": None, "a": 0.8, "p": 0.25}))]   # model parameters incl. a meaningful None
         for rep in range(len(fixed) + (14 if quick else 100)):
             cfg = fixed[rep] if rep < len(fixed) else dict(transfer_model=r.choice(["EH", "BBKS", "EH_NoBAO", "BondEfs"]), lnk_min=-12.0, lnk_max=10.0, dlnk=0.2,
                        Mmin=r.choice([9, 10.0, 11.5]), Mmax=r.choice([14.0, 15, 15.5]), dlog10m=r.choice([0.5, 0.25, 1]),
@@ -66,7 +67,7 @@ def run(ctx):
             if not np.isclose(mf.mean_density0, rho0, rtol=1e-12):
                 viol("rho0", f"mean_density0={mf.mean_density0} differs from Om0*rho_crit0/h^2={rho0}", {"config": str(cfg)})
             # f equals the stand-alone component on the framework's own inputs
-            comp = getattr(ff, cfg["hmf_model"])(m=m, nu2=mf.nu, z=mf.z, mass_definition=mf.mdef, cosmo=mf.cosmo, delta_c=mf.delta_c, n_eff=mf.n_eff)
+            comp = getattr(ff, cfg["hmf_model"])(m=m, nu2=mf.nu, z=mf.z, mass_definition=mf.mdef, cosmo=mf.cosmo, delta_c=mf.delta_c, n_eff=mf.n_eff, **copy.deepcopy(cfg.get("hmf_params", {})))
             if not np.allclose(mf.fsigma, comp.fsigma, rtol=1e-12, atol=0, equal_nan=True):
                 viol("fsigma-vs-component", f"MassFunction.fsigma differs from {cfg['hmf_model']} evaluated stand-alone on (m, nu, z, mdef, cosmo, delta_c, n_eff): max rel dev {float(np.nanmax(np.abs(mf.fsigma / comp.fsigma - 1))):.3g}",
                      {"config": str(cfg)})
